@@ -347,7 +347,7 @@ def body_nndvi(ctx, N):
     import scipy.stats as real
 
     fake_norm = type("N", (), {"fit": staticmethod(real.norm.fit),
-                               "ppf": staticmethod(lambda level, mu, std: q((float(mu), float(std)), level))})
+                               "ppf": staticmethod(lambda level, loc=0, scale=1: q((float(loc), float(scale)), level))})
     perm_calls = {"n": 0}
 
     def permutation(v):
